@@ -225,3 +225,32 @@ Definition abstract_pres (p : pres) : option sres :=
   | PCompile CLabelNotDefined => Some SInvalid
   | PCompile CValueError => None         (* an internal error is never the demanded behaviour *)
   end.
+
+(* ---------- 4. guards used in the theorem statements (all decidable) ---------- *)
+
+(* every DATA statement carries at least one item (always: C15_data_never_empty_list) *)
+Definition data_nonempty (evs : list ev) : bool :=
+  forallb (fun e => match e with EData [] => false | _ => true end) evs.
+
+Definition parts_nonempty (d : dparts) : bool :=
+  forallb (fun p => match p with [] => false | _ => true end) d.
+
+(* every READ variable has one of the five scalar types (always so in a compiled program) *)
+Definition ops_typed (ops : list op) : bool :=
+  forallb (fun o => match o with ORead ty => (1 <=? ty) && (ty <=? 5) | _ => true end) ops.
+
+(* no RESTORE without label (D11) *)
+Definition no_bare_restore (ops : list op) : bool :=
+  forallb (fun o => match o with ORestore None => false | _ => true end) ops.
+
+(* the statement directly after module-level label l, skipping nothing, is a DATA (D12) *)
+Fixpoint label_has_data (l : label) (evs : list ev) : bool :=
+  match evs with
+  | [] => false
+  | ELabel l' :: r =>
+    (str_eqb l l' && match r with EData _ :: _ => true | _ => false end) || label_has_data l r
+  | _ :: r => label_has_data l r
+  end.
+
+Definition targets_own_data (evs : list ev) (ops : list op) : bool :=
+  forallb (fun l => label_has_data l evs) (targets_of ops).
